@@ -37,6 +37,7 @@ import (
 
 	"github.com/Cloud-Foundations/golib/pkg/log/testlogger"
 	"github.com/Cloud-Foundations/keymaster/lib/client/config"
+	"github.com/pquerna/otp/totp"
 	"golang.org/x/crypto/ssh"
 	"golang.org/x/crypto/ssh/agent"
 )
@@ -49,9 +50,10 @@ type c19Req struct {
 }
 
 type c19Recorder struct {
-	inner http.RoundTripper
-	mu    sync.Mutex
-	reqs  []c19Req
+	inner      http.RoundTripper
+	mu         sync.Mutex
+	reqs       []c19Req
+	afterLogin func() // called once, when the answer to the password login has arrived
 }
 
 func (r *c19Recorder) RoundTrip(req *http.Request) (*http.Response, error) {
@@ -62,7 +64,13 @@ func (r *c19Recorder) RoundTrip(req *http.Request) (*http.Response, error) {
 	r.mu.Lock()
 	r.reqs = append(r.reqs, c19Req{req.Method, req.URL.Path, req.URL.RawQuery, dump})
 	r.mu.Unlock()
-	return r.inner.RoundTrip(req)
+	resp, err := r.inner.RoundTrip(req)
+	if req.URL.Path == "/api/v0/login" && r.afterLogin != nil {
+		f := r.afterLogin
+		r.afterLogin = nil
+		f()
+	}
+	return resp, err
 }
 
 // ---------------------------------------------------------------- agent that remembers what it was given
@@ -263,6 +271,9 @@ type c19Run struct {
 	pref         string
 	agentPresent bool
 	second       bool
+	otp          bool
+	user         string
+	otpCode      string
 	err          error
 	reqs         []c19Req
 	files        []c19File
@@ -313,7 +324,7 @@ func c19LooksPrivate(path string) bool {
 var c19PrefCode = map[string]int{"rsa": 0, "p256": 1, "p384": 2}
 
 func TestVerif_C19(t *testing.T) {
-	res := newVerifResult("the real setupCerts for every key preference (rsa, p256, p384) x agent present (twice in a row, the agent pre-loaded with an old certificate and a plain key under the client's label and a certificate under another label) / absent (key files), against the real keymasterd handlers over TLS (HTTP/2), password login; every request recorded at the transport; non-trivial = the run obtained its certificates; distinct by (preference, agent, run)")
+	res := newVerifResult("the real setupCerts for every key preference (rsa, p256, p384) x agent present (twice in a row, the agent pre-loaded with an old certificate and a plain key under the client's label and a certificate under another label) / absent (key files), against the real keymasterd handlers over TLS (HTTP/2), password login, plus runs against a daemon that asks for a local TOTP code (typed into the prompt when the client asks); every request recorded at the transport; non-trivial = the run obtained its certificates; distinct by (preference, agent, run)")
 	defer ioutil.WriteFile(filepath.Join(verifOut(), "c19_client_done"), []byte("done"), 0644)
 	// the server harness writes its address when it is up
 	var info map[string]string
@@ -353,9 +364,36 @@ func TestVerif_C19(t *testing.T) {
 		return c
 	}
 
-	var runs []*c19Run
+	var totpSecrets, passwords map[string]string
+	json.Unmarshal([]byte(info["totp_secrets"]), &totpSecrets)
+	json.Unmarshal([]byte(info["passwords"]), &passwords)
+	caFileT := filepath.Join(verifOut(), "c19_ca_totp.pem")
+	ioutil.WriteFile(caFileT, []byte(info["totp_ca_pem"]), 0644)
+	rootCAsT, err := maybeGetRootCas(caFileT, logger)
+	if err != nil {
+		t.Fatal(err)
+	}
+	type spec struct {
+		pref         string
+		agentPresent bool
+		otp          bool
+		user         string
+	}
+	var specs []spec
 	for _, pref := range []string{"p256", "p384", "rsa"} {
 		for _, agentPresent := range []bool{true, false} {
+			specs = append(specs, spec{pref, agentPresent, false, info["user"]})
+		}
+	}
+	// the one-time-code path (each user can pass TOTP once per 30 s window: one run per user)
+	specs = append(specs, spec{"p256", false, true, "bob"})
+	if verifThorough() {
+		specs = append(specs, spec{"p384", true, true, "admin"}, spec{"rsa", false, true, "alice"})
+	}
+	var runs []*c19Run
+	for _, sp := range specs {
+		pref, agentPresent := sp.pref, sp.agentPresent
+		{
 			home, err := ioutil.TempDir("", "verif_c19_home")
 			if err != nil {
 				t.Fatal(err)
@@ -379,7 +417,7 @@ func TestVerif_C19(t *testing.T) {
 				default:
 					oldKey, _ = ecdsa.GenerateKey(elliptic.P384(), rand.Reader)
 				}
-				label := "keymaster-" + pref + "-alice"
+				label := "keymaster-" + pref + "-" + sp.user
 				ag.Agent.Add(agent.AddedKey{PrivateKey: oldKey, Certificate: oldCert(oldKey), Comment: label})
 				plain, _ := ecdsa.GenerateKey(elliptic.P256(), rand.Reader)
 				ag.Agent.Add(agent.AddedKey{PrivateKey: plain, Comment: label})
@@ -389,27 +427,44 @@ func TestVerif_C19(t *testing.T) {
 				os.Setenv("SSH_AUTH_SOCK", filepath.Join(home, "no-agent-here.sock"))
 			}
 			nRuns := 1
-			if agentPresent {
+			if agentPresent && !sp.otp {
 				nRuns = 2
 			}
 			for rn := 0; rn < nRuns; rn++ {
-				run := &c19Run{pref: pref, agentPresent: agentPresent, second: rn == 1, privs: map[int]interface{}{}}
-				client, err := getHttpClient(rootCAs, logger)
+				run := &c19Run{pref: pref, agentPresent: agentPresent, second: rn == 1, otp: sp.otp, user: sp.user, privs: map[int]interface{}{}}
+				cas, target, password := rootCAs, info["url"], info["password"]
+				if sp.otp {
+					cas, target, password = rootCAsT, info["totp_url"], passwords[sp.user]
+				}
+				client, err := getHttpClient(cas, logger)
 				if err != nil {
 					t.Fatal(err)
 				}
 				rec := &c19Recorder{inner: client.Transport}
 				client.Transport = rec
 				pr, pw, _ := os.Pipe()
-				pw.WriteString(info["password"] + "\n")
-				pw.Close()
+				pw.WriteString(password + "\n")
+				if sp.otp {
+					// the code is typed when the client asks for it, i.e. after the login answer
+					rec.afterLogin = func() {
+						code, err := totp.GenerateCode(totpSecrets[sp.user], time.Now())
+						if err != nil {
+							t.Error(err)
+						}
+						run.otpCode = code
+						pw.WriteString(code + "\n")
+						pw.Close()
+					}
+				} else {
+					pw.Close()
+				}
 				os.Stdin = pr
 				addedBefore := 0
 				if ag != nil {
 					addedBefore = len(ag.added)
 				}
-				cfg := config.AppConfigFile{Base: config.BaseConfig{Gen_Cert_URLS: info["url"], PreferredKeyType: pref}}
-				run.err = setupCerts(info["user"], home, cfg, client, logger)
+				cfg := config.AppConfigFile{Base: config.BaseConfig{Gen_Cert_URLS: target, PreferredKeyType: pref}}
+				run.err = setupCerts(sp.user, home, cfg, client, logger)
 				pr.Close()
 				run.reqs = rec.reqs
 				// files
@@ -454,8 +509,8 @@ func TestVerif_C19(t *testing.T) {
 	// ---------------------------------------------------------------- oracles and Coq cases
 	var cases, idx []string
 	for _, run := range runs {
-		name := fmt.Sprintf("pref=%s agent=%v second=%v", run.pref, run.agentPresent, run.second)
-		cs := map[string]interface{}{"preference": run.pref, "agent_present": run.agentPresent, "second_run": run.second}
+		name := fmt.Sprintf("pref=%s agent=%v second=%v otp=%v user=%s", run.pref, run.agentPresent, run.second, run.otp, run.user)
+		cs := map[string]interface{}{"preference": run.pref, "agent_present": run.agentPresent, "second_run": run.second, "one_time_code": run.otp, "user": run.user}
 		res.bump("run:" + run.pref)
 		res.eval(name, run.err == nil)
 		if run.err != nil {
@@ -478,7 +533,14 @@ func TestVerif_C19(t *testing.T) {
 		for _, rq := range run.reqs {
 			views := c19Views(rq.dump)
 			var atoms []string
-			if bytes.Contains(rq.dump, []byte(url.QueryEscape(info["password"]))) && rq.path == "/api/v0/login" {
+			pwd := info["password"]
+			if run.otp {
+				pwd = passwords[run.user]
+			}
+			if bytes.Contains(rq.dump, []byte(url.QueryEscape(pwd))) && rq.path == "/api/v0/login" {
+				atoms = append(atoms, "1%N")
+			}
+			if rq.path == "/api/v0/TOTPAuth" && run.otpCode != "" && bytes.Contains(rq.dump, []byte("OTP="+run.otpCode)) {
 				atoms = append(atoms, "1%N")
 			}
 			for k := 0; k < 3; k++ {
@@ -515,6 +577,8 @@ func TestVerif_C19(t *testing.T) {
 				kind = 0
 			case rq.path == "/api/v0/login":
 				kind = 1
+			case rq.path == "/api/v0/TOTPAuth":
+				kind = 5
 			case strings.HasPrefix(rq.path, "/certgen/") && rq.query == "type=x509":
 				kind = 2
 			case strings.HasPrefix(rq.path, "/certgen/") && rq.query == "type=x509-kubernetes":
@@ -565,7 +629,7 @@ func TestVerif_C19(t *testing.T) {
 				if e.cert {
 					count[e.comment]++
 				}
-				if !e.cert && e.comment == "keymaster-"+run.pref+"-alice" {
+				if !e.cert && e.comment == "keymaster-"+run.pref+"-"+run.user {
 					plainKept = true
 				}
 				if e.cert && e.comment == "somebody-else" {
@@ -588,7 +652,7 @@ func TestVerif_C19(t *testing.T) {
 			labels = append(labels, fmt.Sprintf("\"%s\"%%string", l))
 		}
 		if run.err == nil {
-			cases = append(cases, fmt.Sprintf(" (%d%%N, %s, %s, %s,\n  [%s],\n  [%s],\n  [%s])", c19PrefCode[run.pref], coqBool(run.agentPresent), coqBool(edOK), coqBool(k8sOK),
+			cases = append(cases, fmt.Sprintf(" (%d%%N, %s, %s, %s, %s, \"%s\"%%string,\n  [%s],\n  [%s],\n  [%s])", c19PrefCode[run.pref], coqBool(run.agentPresent), coqBool(edOK), coqBool(k8sOK), coqBool(run.otp), run.user,
 				strings.Join(wire, "; "), strings.Join(files, "; "), strings.Join(labels, "; ")))
 			idx = append(idx, fmt.Sprintf("%d\t%s ed=%v k8s=%v wire=%s files=%v labels=%v", len(idx), name, edOK, k8sOK, strings.Join(wireDesc, " "), run.files, run.labels))
 		}
@@ -597,7 +661,7 @@ func TestVerif_C19(t *testing.T) {
 	var sb strings.Builder
 	sb.WriteString(coqCaseHeader)
 	sb.WriteString("From KM Require Import Base.Cases Model.Client.\n")
-	sb.WriteString("Definition runs : list (N * bool * bool * bool * list (N * list N) * list (string * N * bool) * list string) := [\n" + strings.Join(cases, ";\n") + "\n].\n")
+	sb.WriteString("Definition runs : list (N * bool * bool * bool * bool * string * list (N * list N) * list (string * N * bool) * list string) := [\n" + strings.Join(cases, ";\n") + "\n].\n")
 	sb.WriteString("Definition c19_mismatches := Eval vm_compute in mismatches (fun c => negb (run_matches c)) runs.\nPrint c19_mismatches.\n")
 	sb.WriteString("Definition c19_ncases := Eval vm_compute in length runs.\nPrint c19_ncases.\n")
 	if err := ioutil.WriteFile(filepath.Join(verifOut(), "CasesC19.v"), []byte(sb.String()), 0644); err != nil {
